@@ -67,6 +67,10 @@ func (c *Ctx) anchors() (*sketchAnchors, error) {
 			a.innerFld = f.Name()
 		}
 	}
+	// functions the rules identify by role are never executed inline (they are analysed on their own)
+	if bl := c.blockLoop(a); bl != nil {
+		roleAnchors[bl] = true
+	}
 	var miss []string
 	for k, v := range map[string]string{"positive store field": a.posField, "negative store field": a.negField, "zero weight field": a.zeroField,
 		"mapping field": a.mapField, "statistics field": a.statField, "embedded sketch field": a.innerFld} {
@@ -399,22 +403,39 @@ func (c *Ctx) paginated() *paginatedRoles {
 			}
 		}
 	}
-	if len(sorts) != 1 {
-		r.err = fmt.Sprintf("expected exactly one method sorting a receiver field with sort.Ints, found %d", len(sorts))
+	if len(sorts) == 0 {
+		r.err = "no method sorts a receiver field with sort.Ints (the buffer cannot be identified)"
 		return r
 	}
-	r.sort = sorts[0]
+	// the sort routine proper: a parameterless, resultless method that does nothing but permute the buffer.
+	// It may be absent (sorting written out at every use): then sort.Ints(buffer) itself plays the role.
+	for _, f := range sorts {
+		if len(f.Params) == 1 && f.Signature.Results().Len() == 0 {
+			ms := c.Mod.Mods[f]
+			if len(ms) == 1 && ms["p0."+r.bufFld+"[*]"] {
+				if r.sort != nil {
+					r.err = "more than one parameterless method that only sorts the buffer"
+					return r
+				}
+				r.sort = f
+			}
+		}
+	}
+	isSorter := map[*ssa.Function]bool{}
+	for _, f := range sorts {
+		isSorter[f] = true
+	}
 	var compacts []*ssa.Function
 	for i := 0; i < r.typ.NumMethods(); i++ {
 		f := c.P.SSA.FuncValue(r.typ.Method(i))
 		if f == nil || f == r.sort || len(f.Params) != 1 || f.Signature.Results().Len() != 0 {
 			continue
 		}
-		calls := false
+		calls := isSorter[f]
 		for _, b := range f.Blocks {
 			for _, in := range b.Instrs {
 				if call, ok := in.(*ssa.Call); ok {
-					if fn, ok := call.Common().Value.(*ssa.Function); ok && fn == r.sort {
+					if fn, ok := call.Common().Value.(*ssa.Function); ok && r.sort != nil && fn == r.sort {
 						calls = true
 					}
 				}
@@ -437,7 +458,9 @@ func (c *Ctx) paginated() *paginatedRoles {
 func (c *Ctx) Mod2() *ModAnalysis {
 	if c.mod2 == nil {
 		r := c.paginated()
+		modExemptSortField = r.bufFld
 		c.mod2 = newModAnalysis(c.P, r.sort, r.compact)
+		modExemptSortField = ""
 	}
 	return c.mod2
 }
@@ -560,8 +583,12 @@ func helperKey(f *ssa.Function) string {
 	return k + f.Name()
 }
 
+// roleAnchors: functions resolved by role during this run (the shared block-loop decoder, the dataset's sort
+// routine, …) — treated like the known helpers.
+var roleAnchors = map[*ssa.Function]bool{}
+
 func inlineNewHelpers(f *ssa.Function) bool {
-	if !inModule(f) || f.Synthetic != "" || f.Parent() != nil {
+	if !inModule(f) || f.Synthetic != "" || f.Parent() != nil || roleAnchors[f] {
 		return false
 	}
 	n := f.Name()
@@ -613,4 +640,72 @@ func withNewHelpers(fs ...*ssa.Function) []*ssa.Function {
 		visit(f)
 	}
 	return out
+}
+
+// execWith: paths of f with a rule-specific inlining policy for statically resolved module callees.
+func execWith(c *Ctx, f *ssa.Function, dom *Domain, visits int, policy func(*ssa.Function) bool) ([]*Path, bool) {
+	paths, ok := pathsOf(c.P, f, dom, execOpts{MaxVisits: visits, Pure: c.Mod.PureCall, InlineCallee: policy})
+	c.R.count("paths", len(paths))
+	c.R.count("functions_path_analysed", 1)
+	return paths, ok
+}
+
+// blockLoop: the shared block-loop decoder of the sketch, by role — the module function that both
+// (*DDSketch).DecodeAndMergeWith and the exact variant's DecodeAndMergeWith call with a fallback closure
+// (a method or a plain function, under any name).
+func (c *Ctx) blockLoop(a *sketchAnchors) *ssa.Function {
+	calleesWithClosure := func(f *ssa.Function) map[*ssa.Function]bool {
+		out := map[*ssa.Function]bool{}
+		if f == nil {
+			return out
+		}
+		for _, b := range f.Blocks {
+			for _, in := range b.Instrs {
+				call, ok := in.(*ssa.Call)
+				if !ok {
+					continue
+				}
+				cal, ok := call.Common().Value.(*ssa.Function)
+				if !ok || !inModule(cal) {
+					continue
+				}
+				for _, arg := range call.Common().Args {
+					if _, isSig := arg.Type().Underlying().(*types.Signature); isSig {
+						out[cal] = true
+					}
+				}
+			}
+		}
+		return out
+	}
+	p := calleesWithClosure(c.P.DeclaredMethod(a.DDSketch, "DecodeAndMergeWith"))
+	e := calleesWithClosure(c.P.DeclaredMethod(a.Exact, "DecodeAndMergeWith"))
+	var found *ssa.Function
+	n := 0
+	for f := range p {
+		if e[f] {
+			found = f
+			n++
+		}
+	}
+	if n == 1 {
+		return found
+	}
+	return nil
+}
+
+// isSortCall: the call sorts the paginated store's buffer — through the sort routine, or sort.Ints(recv.buffer) written out.
+func (r *paginatedRoles) isSortCall(tc *TermCtx, call *ssa.Call) bool {
+	fn, ok := call.Common().Value.(*ssa.Function)
+	if !ok {
+		return false
+	}
+	if r.sort != nil && fn == r.sort {
+		return true
+	}
+	if fn.String() == "sort.Ints" {
+		t := tc.Of(call.Common().Args[0])
+		return t.Op == "field" && t.Sym == r.bufFld && (t.Args[0].isParam(0) || t.Args[0].isRecv())
+	}
+	return false
 }
